@@ -228,8 +228,18 @@ def gen_plan_b(ch: Chooser) -> dict[str, Any]:
         # a second burst after some successes: the delays must start from the beginning again
         second = first + n_err * per + ch.int(1, 3)
         nth += list(range(second, second + ch.int(1, 3) * per))
-    rules.append({'match': {'kind': 'widgets', 'name': 'a', 'method': 'PATCH', 'ctype': 'merge'},
-                  'nth': nth, 'action': {'kind': 'status', 'status': code}})
+    if ch.bool(0.3):
+        # the failing requests are the JSON-patches of the finalizer (a delete handler makes the framework add it):
+        # the same escalation rules hold for them, except that 422 means "postponed", not an error
+        handlers.append({'id': 'd1', 'kind': 'delete', 'opts': {}, 'script': [{'do': 'ok', 'dur': 0.0}]})
+        code = ch.choice([409, 429, 500, 403])
+        per = len(settings['error_backoffs']) + 1 if code in (500, 403, 429) else 1
+        nth = list(range(1, 1 + n_err * per))
+        rules.append({'match': {'kind': 'widgets', 'name': 'a', 'method': 'PATCH', 'ctype': 'json'},
+                      'nth': nth, 'action': {'kind': 'status', 'status': code}})
+    else:
+        rules.append({'match': {'kind': 'widgets', 'name': 'a', 'method': 'PATCH', 'ctype': 'merge'},
+                      'nth': nth, 'action': {'kind': 'status', 'status': code}})
     t = 3.0
     counter = 0
     for _ in range(ch.int(4, 14)):
@@ -308,7 +318,9 @@ def oracle_b(run: runner.Run, oc: Outcome) -> None:
                 oc.add('C12/throttle-ignored', 'too-soon',
                        f"object {name}: processing acted at t={min(act_times):.4f} although it is throttled until "
                        f"t={blocked_until:.4f} after {consecutive} consecutive error(s) (error_delays={delays})", name=name)
-            failed = bool(reqs) and reqs[-1][4] >= 400 and reqs[-1][4] != 404
+            # (422 to a JSON-patch is a lost race on the resource version: the transformation is postponed, no error)
+            failed = bool(reqs) and reqs[-1][4] >= 400 and reqs[-1][4] != 404 and \
+                not (reqs[-1][4] == 422 and by_rid[reqs[-1][3]].attrs.get('ctype') == 'json')
             if failed:
                 delay = delays[consecutive] if consecutive < len(delays) else (delays[-1] if delays else None)
                 # the pause is not longer than configured either (when nothing interrupts the step)
@@ -332,7 +344,12 @@ def oracle_b(run: runner.Run, oc: Outcome) -> None:
             handled = [c for c in run.calls if c.uid == uid and c.hid == 'u1' and c.outcome == 'ok'
                        and (c.body or {}).get('spec', {}).get('a') == want]
             errors_after = any(e[2] == 'fault' and e[1] >= last_edit.t for e in run.sim.trace)
-            if not handled and not errors_after and run.sim.now - last_edit.t > 30.0:
+            # (an object whose very first handling was held up by the errors takes its last edit in as its creation)
+            final_ = next((x for x in run.cluster.list(run.rdef('widgets'), None) if x['metadata']['uid'] == uid), None)
+            absorbed = final_ is not None and ((common.StorageRef(spec).last_handled(final_) or {}).get('spec') or {}).get('a') == want \
+                and not any(c.uid == uid and c.hid == 'u1' for c in run.calls)
+            if 'u1' in {h['id'] for h in spec['handlers']} and not handled and not absorbed and not errors_after \
+                    and run.sim.now - last_edit.t > 30.0:
                 oc.add('C12/no-recovery', 'last-edit-unhandled',
                        f"object {name}: its last edit (spec.a={want}, t={last_edit.t:.2f}) came after the errors had stopped "
                        f"but was never handled", name=name)
